@@ -189,3 +189,66 @@ Proof.
   - cbn [vrun] in H. destruct (le4 bs + size <=? total) eqn:C; [|discriminate].
     cbn [vrun] in H. inversion H; subst. right. apply Z.leb_le. exact C.
 Qed.
+
+(* ---------- routines on a pointer cell of sandbox memory ---------- *)
+Lemma vrun_pmap {A B} (f : A -> B) sc (p : prog A) : forall m t,
+  vrun sc (pmap f p) m t = match vrun sc p m t with Ok (a, m', t') => Ok (f a, m', t') | Abort => Abort | Diverge => Diverge | Fault => Fault end.
+Proof.
+  induction p as [a|k IH|off k IH|b k IH|]; intros m t; cbn [pmap vrun].
+  - reflexivity.
+  - apply IH.
+  - destruct (nth_error m off); [apply IH|reflexivity].
+  - destruct b; [apply IH|reflexivity].
+  - reflexivity.
+Qed.
+
+Lemma with_cell_inv {A} sc woff cell (knull : prog A) k m t r :
+  vrun sc (with_cell woff cell knull k) m t = Ok r ->
+  vrun sc knull m t = Ok r \/ exists o, vrun sc (k o) m t = Ok r.
+Proof.
+  unfold with_cell. intros H. apply rd_bytes_inv in H. destruct H as (bs & _ & H).
+  cbn [rev app] in H.
+  destruct (le4 bs =? 0); [left; exact H|].
+  destruct (woff (le4 bs)) as [o|]; [right; exists o; exact H|discriminate].
+Qed.
+
+Lemma string_unique_cell_terminated sc woff w cell m t buf m' t' :
+  vrun sc (cv_string_unique_cell woff w cell) m t = Ok (Some buf, m', t') ->
+  exists off n, length buf = S n /\ (off + S n <= w)%nat /\
+            nth n buf 1 = 0 /\ exists k, cstrlen buf = Some k /\ (k <= n)%nat.
+Proof.
+  intros H. apply with_cell_inv in H. destruct H as [H|(o & H)].
+  - cbn [vrun] in H. discriminate.
+  - rewrite vrun_pmap in H.
+    destruct (vrun sc (cv_string_unique w o) m t) as [[[b mm] tt]| | |] eqn:E; try discriminate.
+    inversion H; subst. exists o. exact (string_unique_terminated sc w o m t buf m' t' E).
+Qed.
+
+Lemma string_std_cell_length sc woff w cell m t s m' t' :
+  vrun sc (cv_string_std_cell woff w cell) m t = Ok (s, m', t') ->
+  s = [] \/ exists off len, length s = len /\ (off + S len <= w)%nat.
+Proof.
+  intros H. apply with_cell_inv in H. destruct H as [H|(o & H)].
+  - cbn [vrun] in H. inversion H. left. reflexivity.
+  - right. exists o. exact (string_std_length sc w o m t s m' t' H).
+Qed.
+
+Lemma range_cell_shape sc woff w elsz cell count m t es m' t' :
+  vrun sc (cv_range_cell woff w elsz cell count) m t = Ok (Some es, m', t') ->
+  exists off, length es = count /\ Forall (fun e => length e = elsz) es /\ (off + count * elsz <= w)%nat /\ count <> 0%nat.
+Proof.
+  intros H. apply with_cell_inv in H. destruct H as [H|(o & H)].
+  - cbn [vrun] in H. destruct (negb (Nat.eqb count 0)); cbn [vrun] in H; discriminate.
+  - rewrite vrun_pmap in H.
+    destruct (vrun sc (cv_range w elsz o count) m t) as [[[b mm] tt]| | |] eqn:E; try discriminate.
+    inversion H; subst. exists o. exact (range_shape sc w elsz o count m t es m' t' E).
+Qed.
+
+(* D18 before the fix: the sandbox nulls the cell after the string was measured *)
+Lemma string_unique_cell_refetch_refuted :
+  let woff := fun r : Z => if (248 <=? r) && (r <? 256) then Some (Z.to_nat (r - 248)) else None in
+  let m0 := [252; 0; 0; 0; 65; 66; 0; 88] in
+  let sc := fun i : nat => match i with 2%nat => [(0%nat, 0)] | _ => [] end in
+  vrun sc (cv_string_unique_cell_refetch woff 256 8 0) m0 0 = Fault /\
+  (exists r, vrun sc (cv_string_unique_cell woff 8 0) m0 0 = Ok r /\ fst (fst r) = Some [65; 66; 0]).
+Proof. split; [vm_compute; reflexivity|]. eexists. split; vm_compute; reflexivity. Qed.
